@@ -269,6 +269,10 @@ func (fr *Frame) unop(x *ssa.UnOp) {
 		l := ex.ls.of(x.Type())
 		v := ex.load(fr.st, fr.val(x.X).T, l, ex.P.addrHint(x.X), true)
 		fr.fieldLoadHook(x, v)
+		if g, isG := x.X.(*ssa.Global); isG && ex.P.constGlobals[g] != nil && l.Kind == LScalar {
+			// write-once package variable with a constant initialiser
+			ex.q.assume(eq(v.T, ex.constVal(ex.P.constGlobals[g]).T))
+		}
 		if g, isG := x.X.(*ssa.Global); isG && ex.P.nonNilGlobals[g] {
 			if c := nilTermOf(l, v); c != "" {
 				ex.q.assume(not(c))
@@ -780,7 +784,7 @@ func (fr *Frame) returnSite(x *ssa.Return, rv *Val) {
 			cond := cx.evalBool(c.Expr)
 			o := fr.oblige("returns", clauseName(c), cond, x.Pos())
 			if o != nil {
-				o.Label, o.Mode = c.Label, c.Mode
+				o.Label, o.Mode, o.Slow = c.Label, c.Mode, c.Slow
 			}
 			ex.retSiteHits[clauseName(c)]++
 		}()
